@@ -198,6 +198,7 @@ def spec_links(svc, text):
 
 
 def oracle(ctx):
+    core.io_inventory_obligation(ctx.res, ('write',))
     res = ctx.res
     rnd = ctx.rnd
     cases = (getattr(ctx, '_c12', None) or [(svc, gen_install(rnd, svc)) for svc in [rnd.choice(SVC_FILES) for _ in range(500)]])[: (1200 if ctx.thorough else 300)]
